@@ -15,8 +15,9 @@ batches, `sign` with arbitrary signer / account-store / store faults and arbitra
                   and the staging area of the database at the moment of return.
 
 `manager.BatchSign` and the handler's `Sign` case are the *interpreted regenerated programs*
-(`Pool.Gen.C05.batchSignProg`, `handlerSignProg`); `C05_batchSign_order` / `C05_handler_order` are the
-obligations that tie every theorem below to the statement order of the Go source.
+(`Pool.Gen.C05.batchSignProg`, `handlerSignProg`); `C05_batchSign_order` (exact statement order) and
+`C05_handler_order` (structural check, tolerant of harmless reorderings) are the obligations that tie every
+theorem below to the Go source.
 -/
 set_option linter.unusedSimpArgs false
 set_option linter.unusedVariables false
@@ -31,14 +32,13 @@ on error return `nil, nil, …`; only then `return sig, nonces, nil`. -/
 theorem C05_batchSign_order (s : St) (f : Faults) : batchSign s f = batchSignSpec s f :=
   batchSign_eq_spec s f
 
-/-- (R) the `Sign` case of `handleServerMessage`, as regenerated from the Go source, is the decision tree
-`handleSignSpec` (parse; channel setup; `BatchSign`; `sendSignBatch` – each followed by a reject-and-return
-on error). -/
-theorem C05_handler_order (s : St) (env : HEnv) :
-    (handleSign s env).st = (handleSignSpec s env).st ∧
-    (handleSign s env).trace.reverse = (handleSignSpec s env).trace ∧
-    (handleSign s env).panicked = (handleSignSpec s env).panicked :=
-  handleSign_eq_spec s env
+/-- (R) the `Sign` case of `handleServerMessage`, as regenerated from the Go source, passes the structural
+check `safeSign`: every `BatchSign` call is immediately followed by
+`if err != nil { return s.sendRejectBatch(…) }`, `sendSignBatch(batch, sigs, nonces, …)` occurs only after
+such a checked `BatchSign`, and the case ends with a `return`.  Where the other statements (parsing, the two
+assignments, channel setup, logging, the nil-batch guard) stand does not matter – a harmless reordering keeps
+this `decide` true, moving `sendSignBatch` before `BatchSign` or dropping the error check makes it false. -/
+theorem C05_handler_order : safeSign (handlerSignProg.map parseH) = true := by decide
 
 /-- (R) the sighash types in the Go source are SIGHASH_ALL (p2wsh) and SIGHASH_DEFAULT (taproot), the two
 that commit to every input and every output; the signer matches inputs by the stored outpoint over
@@ -183,91 +183,45 @@ theorem C05_ok_implies_staged (verifyOk : St → Batch → Bool) (s : St) (f : F
       subst hb'
       exact ⟨b0, rows, rfl, by simp [hs', attachAux], by simpa [attachAux] using hF⟩
 
-/-! ## The handler's Sign case -/
+/-! ## The handler's Sign case
 
-/-- **Send after sign.**  If the handler hands a sign message to the auctioneer, then – chronologically –
-`BatchSign` returned success immediately before it, the message carries exactly the signatures and nonces
-`BatchSign` returned, nothing was handed to the auctioneer earlier in this invocation, and at that moment
-the database holds the pending batch as staged. -/
-theorem C05_send_after_sign (s : St) (env : HEnv) (sigs : List Sig) (nonces : List Key)
-    (h : Ev.sendSign sigs nonces ∈ (handleSign s env).trace) :
-    (∃ post, (handleSign s env).trace.reverse =
-        [.parseSign, .chanSetup, .batchSign true, .sendSign sigs nonces] ++ post ∧
-        (post = [] ∨ post = [.sendReject])) ∧
-    (batchSign (attachAux s env.nonces env.prev) env.faults).2 = .ok sigs nonces ∧
-    ∃ b rows, s.pending = some b ∧
-      (handleSign s env).st.db.staged = some { id := b.id, tid := b.tid, tx := b.tx, rows := rows } := by
-  obtain ⟨hst, htr, _⟩ := handleSign_eq_spec s env
-  have hmem : Ev.sendSign sigs nonces ∈ (handleSignSpec s env).trace := by
-    rw [← htr]; simpa using h
-  rw [htr, hst]
-  unfold handleSignSpec at hmem ⊢
-  cases hsp : s.pending with
-  | none => cases hg : nilGuard <;> simp [hsp, hg] at hmem
-  | some b0 =>
-    simp only [hsp] at hmem ⊢
-    cases hpo : env.parseOk with
-    | false => simp [hpo] at hmem
-    | true =>
-      cases hco : env.chanOk with
-      | false => simp [hpo, hco] at hmem
-      | true =>
-        simp only [hpo, hco, Bool.not_true, Bool.false_eq_true, if_false] at hmem ⊢
-        cases hbs : batchSign (attachAux s env.nonces env.prev) env.faults with
-        | mk s2 o =>
-          simp only [hbs] at hmem ⊢
-          cases o with
-          | errSign e => simp at hmem
-          | errStore => simp at hmem
-          | panic => simp at hmem
-          | ok S N =>
-            obtain ⟨b', rows, hb', _, hs2, _, _⟩ := batchSign_ok _ _ _ _ _ hbs
-            have hb0 : b' = { b0 with nonces := env.nonces, prevOuts := env.prev } := by
-              simp [attachAux, hsp] at hb'; exact hb'.symm
-            cases hso : env.sendOk with
-            | true =>
-              simp [hso] at hmem
-              obtain ⟨h1, h2⟩ := hmem
-              subst h1; subst h2
-              simp only [hso, ↓reduceIte]
-              refine ⟨⟨[], rfl, Or.inl rfl⟩, ?_, b0, rows, ?_, ?_⟩
-              all_goals first | trivial | rfl | simp [hs2, hb0, attachAux]
-            | false =>
-              simp [hso] at hmem
-              obtain ⟨h1, h2⟩ := hmem
-              subst h1; subst h2
-              simp only [hso, Bool.false_eq_true, ↓reduceIte]
-              refine ⟨⟨[.sendReject], rfl, Or.inr rfl⟩, ?_, b0, rows, ?_, ?_⟩
-              all_goals first | trivial | rfl | simp [hs2, hb0, attachAux]
+Proved for every program passing `safeSign` (lemma `safe_run`), instantiated with the regenerated one. -/
 
-/-- **Error path.**  If `BatchSign` does not succeed (signing or staging failed), no sign message is handed
-to the auctioneer; unless the process crashed, the last thing handed over is a reject. -/
-theorem C05_handler_error_sends_no_sig (s : St) (env : HEnv)
-    (hfail : ∀ S N, (batchSign (attachAux s env.nonces env.prev) env.faults).2 ≠ .ok S N) :
-    (∀ S N, Ev.sendSign S N ∉ (handleSign s env).trace) ∧
-    ((handleSign s env).panicked = false → (handleSign s env).trace.head? = some .sendReject) := by
-  obtain ⟨_, htr, hpn⟩ := handleSign_eq_spec s env
-  have hrev : (handleSign s env).trace = (handleSignSpec s env).trace.reverse := by
-    rw [← htr]; simp
-  rw [hrev, hpn]
-  unfold handleSignSpec
-  cases hsp : s.pending with
-  | none => cases nilGuard <;> simp
-  | some b0 =>
-    cases hpo : env.parseOk with
-    | false => simp [hpo]
-    | true =>
-      cases hco : env.chanOk with
-      | false => simp [hpo, hco]
-      | true =>
-        cases hbs : batchSign (attachAux s env.nonces env.prev) env.faults with
-        | mk s2 o =>
-          rw [hbs] at hfail
-          cases o with
-          | ok S N => exact absurd rfl (hfail S N)
-          | errSign e => simp [hpo, hco, hbs]
-          | errStore => simp [hpo, hco, hbs]
-          | panic => simp [hpo, hco, hbs]
+/-- **Send after sign.**  Whenever the handler hands a sign message to the auctioneer (`post` = what
+happened later, `pre` = what happened before, newest first): the most recent `BatchSign` before it returned
+success; the message carries exactly the signatures and nonces that a `BatchSign` of this invocation returned,
+run on the handler's own pending batch `b` and account rows; they are the ideal signatures for `b`'s diffs
+over `b.tx`; and the staging area at the moment of the send holds `b` (id, transaction, one row per diff). -/
+theorem C05_send_after_sign (s : St) (env : HEnv) (post pre : List Ev) (S : List Sig) (N : List Key)
+    (g : Option Staged) (h : (handleSign s env).trace = post ++ Ev.sendSign S N g :: pre) :
+    lastSign pre = some true ∧
+    ∃ s0 s1 b rows, s0.pending = some b ∧ s0.pending.map Batch.core = s.pending.map Batch.core ∧
+      s0.db.accts = s.db.accts ∧ s0.db.orders = s.db.orders ∧
+      batchSign s0 env.faults = (s1, .ok S N) ∧
+      g = some { id := b.id, tid := b.tid, tx := b.tx, rows := rows } ∧
+      Forall2 (SigFor s0.db b.tx b.prevOuts) b.diffs S ∧ Forall2 (RowFor s0.db) b.diffs rows := by
+  obtain ⟨hgood, hrall, _, _⟩ := safe_run s env _ C05_handler_order
+  refine ⟨goodTr_split _ post pre S N g hgood h, ?_⟩
+  have hm : Ev.sendSign S N g ∈ (handleSign s env).trace := by rw [h]; simp
+  obtain ⟨s0, s1, hc, ha, ho, hbs, hg⟩ := hrall S N g hm
+  obtain ⟨b, rows, hb, hF, hs1, _, _, hrf⟩ := batchSign_ok _ _ _ _ _ hbs
+  exact ⟨s0, s1, b, rows, hb, hc, ha, ho, hbs, by rw [hg, hs1], hF, hrf⟩
+
+/-- **Error path.**  The handler always returns; if a `BatchSign` of this invocation failed (signing or
+staging failed) then – unless the process crashed – that failure is followed by exactly one more message to
+the auctioneer, a reject, and by nothing else: in particular no sign message is sent after a failed
+`BatchSign`. -/
+theorem C05_handler_error_sends_no_sig (s : St) (env : HEnv) :
+    (handleSign s env).done = true ∧
+    (Ev.batchSign false ∈ (handleSign s env).trace →
+      (handleSign s env).panicked = true ∨
+      ∃ tr', (handleSign s env).trace = .sendReject :: .batchSign false :: tr' ∧ Ev.batchSign false ∉ tr') := by
+  obtain ⟨_, _, hfs, hd⟩ := safe_run s env _ C05_handler_order
+  refine ⟨hd, fun hm => ?_⟩
+  rcases hfs with h1 | h2 | h3
+  · exact absurd hm h1
+  · exact Or.inl h2
+  · exact Or.inr h3
 
 /-! ## Signatures bind the transaction -/
 
@@ -474,7 +428,7 @@ example : (step (fun _ b => b.vflag) (step (fun _ b => b.vflag) (initSt Ex.accts
 
 /-- the handler hands over a sign message on the success path (hypothesis of `C05_send_after_sign`) -/
 example : ((handleSign (step (fun _ b => b.vflag) (initSt Ex.accts Ex.orders) (.validate Ex.b)).1 Ex.env).trace.reverse.map
-    (fun e => match e with | .sendSign S _ => S.length | _ => 0)) = [0, 0, 0, 2] := by decide
+    (fun e => match e with | .sendSign S _ g => S.length + (g.map (·.id)).getD 0 | _ => 0)) = [0, 0, 0, 7] := by decide
 
 /-- … and only a reject when the signer fails (hypothesis of `C05_handler_error_sends_no_sig`) -/
 example : (handleSign (step (fun _ b => b.vflag) (initSt Ex.accts Ex.orders) (.validate Ex.b)).1
